@@ -184,7 +184,8 @@ package gtree
 //@   implements encoderFactory
 // interface-level view (the dynamic type does not reveal the instance): a consequence of the three instance contracts
 //@ func gtree.formattedSpreaderPipeline.spread
-//@   assumed
+//@   derived from gtree.formattedSpreaderPipeline.spread[jsonNode], gtree.formattedSpreaderPipeline.spread[yamlNode], gtree.formattedSpreaderPipeline.spread[tomlNode]
+//@   requires nn: f != nil && f.encode != nil && f.formattedRoot != nil && ctx != nil
 //@   carries roots: grownChan($g)
 //@   carries result0: errChan
 //@   modifies out, wfail, encTrace, encoders, errSent
@@ -245,7 +246,7 @@ package gtree
 
 // ---- the tree (pipeline_tree.go)
 // pipelineTreeOK(t, cfg): t is the treePipeline that newTreePipeline builds for cfg.
-//@ pred pipelineTreeOK(t *treePipeline, cfg *config): t != nil && cfg != nil && cfg.ctx != nil && t.grower != nil && t.spreader != nil && t.mkdirer != nil && t.verifier != nil && t.walker != nil && (cfg.encode != encodeDefault ==> isType(t.grower, nopGrowerPipeline)) && (cfg.encode == encodeDefault ==> isType(t.grower, defaultGrowerPipeline) && as(t.grower, defaultGrowerPipeline).defaultGrowerSimple != nil && as(t.grower, defaultGrowerPipeline).defaultGrowerSimple.lastNodeFormat == cfg.lastNodeFormat && as(t.grower, defaultGrowerPipeline).defaultGrowerSimple.intermedialNodeFormat == cfg.intermedialNodeFormat && (cfg.dryrun ==> as(t.grower, defaultGrowerPipeline).defaultGrowerSimple.enabledValidation)) && (cfg.dryrun ==> isType(t.spreader, colorizeSpreaderPipeline) && as(t.spreader, colorizeSpreaderPipeline).colorizeSpreaderSimple != nil && colorizeOK(as(t.spreader, colorizeSpreaderPipeline).colorizeSpreaderSimple) && as(t.spreader, colorizeSpreaderPipeline).colorizeSpreaderSimple.fileConsiderer.extensions == cfg.fileExtensions) && (!cfg.dryrun && !(cfg.encode >= encodeJSON && cfg.encode <= encodeTOML) ==> isType(t.spreader, defaultSpreaderPipeline) && as(t.spreader, defaultSpreaderPipeline).defaultSpreaderSimple != nil) && (!cfg.dryrun && cfg.encode >= encodeJSON && cfg.encode <= encodeTOML ==> isType(t.spreader, formattedSpreaderPipeline)) && isType(t.mkdirer, defaultMkdirerPipeline) && as(t.mkdirer, defaultMkdirerPipeline).defaultMkdirerSimple != nil && as(t.mkdirer, defaultMkdirerPipeline).defaultMkdirerSimple.fileConsiderer != nil && as(t.mkdirer, defaultMkdirerPipeline).defaultMkdirerSimple.fileConsiderer.extensions == cfg.fileExtensions && as(t.mkdirer, defaultMkdirerPipeline).defaultMkdirerSimple.targetDir == (len(cfg.targetDir) != 0 ? cfg.targetDir : ".") && isType(t.verifier, defaultVerifierPipeline) && as(t.verifier, defaultVerifierPipeline).defaultVerifierSimple != nil && as(t.verifier, defaultVerifierPipeline).defaultVerifierSimple.strict == cfg.strictVerify && as(t.verifier, defaultVerifierPipeline).defaultVerifierSimple.targetDir == (len(cfg.targetDir) != 0 ? cfg.targetDir : ".") && isType(t.walker, defaultWalkerPipeline) && as(t.walker, defaultWalkerPipeline).defaultWalkerSimple != nil
+//@ pred pipelineTreeOK(t *treePipeline, cfg *config): t != nil && cfg != nil && cfg.ctx != nil && t.grower != nil && t.spreader != nil && t.mkdirer != nil && t.verifier != nil && t.walker != nil && (cfg.encode != encodeDefault ==> isType(t.grower, nopGrowerPipeline)) && (cfg.encode == encodeDefault ==> isType(t.grower, defaultGrowerPipeline) && as(t.grower, defaultGrowerPipeline).defaultGrowerSimple != nil && as(t.grower, defaultGrowerPipeline).defaultGrowerSimple.lastNodeFormat == cfg.lastNodeFormat && as(t.grower, defaultGrowerPipeline).defaultGrowerSimple.intermedialNodeFormat == cfg.intermedialNodeFormat && (cfg.dryrun ==> as(t.grower, defaultGrowerPipeline).defaultGrowerSimple.enabledValidation)) && (cfg.dryrun ==> isType(t.spreader, colorizeSpreaderPipeline) && as(t.spreader, colorizeSpreaderPipeline).colorizeSpreaderSimple != nil && colorizeOK(as(t.spreader, colorizeSpreaderPipeline).colorizeSpreaderSimple) && as(t.spreader, colorizeSpreaderPipeline).colorizeSpreaderSimple.fileConsiderer.extensions == cfg.fileExtensions) && (!cfg.dryrun && !(cfg.encode >= encodeJSON && cfg.encode <= encodeTOML) ==> isType(t.spreader, defaultSpreaderPipeline) && as(t.spreader, defaultSpreaderPipeline).defaultSpreaderSimple != nil) && (!cfg.dryrun && cfg.encode >= encodeJSON && cfg.encode <= encodeTOML ==> isType(t.spreader, formattedSpreaderPipeline) && as(t.spreader, formattedSpreaderPipeline).encode != nil && as(t.spreader, formattedSpreaderPipeline).formattedRoot != nil) && isType(t.mkdirer, defaultMkdirerPipeline) && as(t.mkdirer, defaultMkdirerPipeline).defaultMkdirerSimple != nil && as(t.mkdirer, defaultMkdirerPipeline).defaultMkdirerSimple.fileConsiderer != nil && as(t.mkdirer, defaultMkdirerPipeline).defaultMkdirerSimple.fileConsiderer.extensions == cfg.fileExtensions && as(t.mkdirer, defaultMkdirerPipeline).defaultMkdirerSimple.targetDir == (len(cfg.targetDir) != 0 ? cfg.targetDir : ".") && isType(t.verifier, defaultVerifierPipeline) && as(t.verifier, defaultVerifierPipeline).defaultVerifierSimple != nil && as(t.verifier, defaultVerifierPipeline).defaultVerifierSimple.strict == cfg.strictVerify && as(t.verifier, defaultVerifierPipeline).defaultVerifierSimple.targetDir == (len(cfg.targetDir) != 0 ? cfg.targetDir : ".") && isType(t.walker, defaultWalkerPipeline) && as(t.walker, defaultWalkerPipeline).defaultWalkerSimple != nil
 
 //@ func gtree.newTreePipeline
 //@   requires nn: cfg != nil && cfg.ctx != nil
